@@ -99,6 +99,62 @@ class Report:
                 o.witness = None
                 self.withheld += 1
 
+    def idiom_guard(self):
+        """A VIOLATED verdict of a structural clause about a function that uses idioms outside the
+        modelled set (sa/idioms.py) is withheld: the clause may simply not see the computation."""
+        if self.ctx is None:
+            return
+        from . import idioms
+        cache = {}
+
+        def unmodelled(rel, qual):
+            key = (rel, qual)
+            if key in cache:
+                return cache[key]
+            out = []
+            modname = rel[:-3].replace("/", ".")
+            try:
+                im = self.ctx.imod(modname)
+            except Exception:
+                cache[key] = out
+                return out
+            fns = []
+            if qual in im.funcs:
+                fns.append(im.funcs[qual])
+                # nested functions of it
+                fns.extend(f for q, f in im.funcs.items() if q.startswith(qual + "."))
+            elif qual in im.classes:
+                fns.extend(f for q, f in im.funcs.items() if q.startswith(qual + "."))
+            for f in fns:
+                for x in idioms.census(im, f, self.ctx.model):
+                    if x not in out:
+                        out.append(x)
+            cache[key] = out
+            return out
+        pairs = {("C10", "ctparse"): ["_ctparse"], ("C14", "ctparse"): ["ctparse_gen"],
+                 ("C03", "ctparse_gen"): ["_ctparse"], ("C13", "_ctparse"): ["_regex_stack"]}
+        exempt = getattr(self, "idiom_exempt", set())
+        for o in self.obs:
+            if o.status != VIOLATED:
+                continue
+            if "*" in exempt or o.rule in exempt:
+                continue      # clauses that report what they found, not what they failed to find
+            parts = o.construct.split("::")
+            if len(parts) < 2 or parts[0] not in idioms.STRUCTURAL_MODULES:
+                continue
+            quals = [parts[1]] + pairs.get((self.prop, parts[1]), [])
+            unk = []
+            for q in quals:
+                for x in unmodelled(parts[0], q):
+                    if x not in unk:
+                        unk.append("{}: {}".format(q, x))
+            if unk:
+                o.status = UNDECIDED
+                o.detail = "verdict withheld, {} uses idioms outside the modelled set [{}]; candidate: {}".format(
+                    parts[1], "; ".join(unk[:3]), o.detail)
+                o.witness = None
+                self.withheld += 1
+
     # -- obligations ------------------------------------------------------
     def add(self, rule, construct, where, ok, detail="", witness=None, nontrivial=True):
         st = DISCHARGED if ok else VIOLATED
